@@ -317,6 +317,13 @@ def case_list(spec_name, cls, strong_ok, spd, n, ctx):
     G(tol=1e-10, maxiter=3, rr=False, ric=True)
     G(tol=1e-10, maxiter=4, restart=3, rr=True, ric=True, rhs="own_proj")
     G(tol=1e-4, restart=5, fc=True)
+    # the same systems in other units: right-hand sides of norm 1e-7 and 1e+6 (a relative tolerance must stay relative)
+    add("lu", rhs="own_proj", fc=False, fs=1e-7)
+    G(tol=1e-6, restart=n, rhs="own_proj", fs=1e-7)
+    G(tol=1e-8, restart=2 * n, rhs="own_proj" if rd else "lib", fs=1e-3, fc=True, rr=False)
+    G(tol=1e-6, restart=n, rhs="own_proj", fs=1e6, ric=False)
+    if strong_ok:
+        G(tol=1e-6, strong=True, restart=n, rhs="own_coef", fs=1e-7)
     if spd:
         def C(**kw):
             cfg = dict(tol=1e-8, maxiter=None, strong=False, rr=True, ric=True, rhs="own_proj" if rd else "lib", fc=False)
@@ -328,6 +335,9 @@ def case_list(spec_name, cls, strong_ok, spd, n, ctx):
             C(tol=1e-6, strong=True, rhs="own_coef", rr=False, ric=True)
         C(tol=1e-12, rr=True, ric=False, rhs="own_proj")
         C(tol=1e-10, maxiter=2, rr=True, ric=True)
+        C(tol=1e-6, rhs="own_proj", fs=1e-7)
+        if strong_ok:
+            C(tol=1e-6, strong=True, rhs="own_coef", fs=1e-6, rr=False)
     if cls in ("blocked", "generalized") and strong_ok:
         # lists of grid functions with MIXED dtypes (one block real, the others complex), as solution (through A * f) and as
         # right-hand side (rhs-first manufacture): the stacked vector must be promoted over all entries
@@ -372,10 +382,21 @@ class Checker:
         self.stats = {"weak": 0, "strong": 0, "maxiter_hit_gmres": 0, "maxiter_hit_cg": 0, "expected_converge": 0, "expected_fail": 0, "borderline": 0,
                       "spy_records": 0, "spy_missed": 0, "lu_factor_nonsym": 0, "complex_op": 0, "complex_rhs_real_op": 0, "unequal_blocks": 0,
                       "permuted_block_sizes": 0, "cg_weak": 0, "cg_strong": 0, "residual_lists_checked": 0, "counts_checked": 0, "tols": set(),
-                      "lib_rhs_skipped": 0, "space_checks": 0, "mixed_dtype_lists": 0}
+                      "lib_rhs_skipped": 0, "space_checks": 0, "mixed_dtype_lists": 0, "scaled_data": 0}
 
     # -------------------------------------------------------------------------------------------- manufactured data
-    def draw(self, S, cid, fc):
+    def draw(self, S, cid, fc, fs=1.0):
+        """Manufactured data; `fs` scales it (tolerances of the solvers are RELATIVE: units of the data must not matter)."""
+        f, c, p = self._draw(S, cid, fc)
+        if fs != 1.0:
+            c, p = c * fs, p * fs
+            f = [self.api.GridFunction(sp, coefficients=np.asarray(ci).copy()) for sp, ci in zip(S.domains, split(c, S.dom_sizes))]
+            if self._mixed_r is not None:
+                self._mixed_r = (self._mixed_r[0], [ri * fs for ri in self._mixed_r[1]])
+            self.stats["scaled_data"] += 1
+        return f, c, p
+
+    def _draw(self, S, cid, fc):
         rng = self.ctx.rng(cid, "f")
         self._mixed_r = None
         if isinstance(fc, str) and fc.startswith("mixed_rhs"):
@@ -497,12 +518,12 @@ class Checker:
 
     # -------------------------------------------------------------------------------------------------------- cases
     def case_mul(self, S, cid, cfg):
-        f, c, p = self.draw(S, cid, cfg["fc"])
+        f, c, p = self.draw(S, cid, cfg["fc"], cfg.get("fs", 1.0))
         self.lib_rhs(S, f, p, cid, cfg)
 
     def case_lu(self, S, cid, cfg):
         api = self.api
-        f, c, p = self.draw(S, cid, cfg["fc"])
+        f, c, p = self.draw(S, cid, cfg["fc"], cfg.get("fs", 1.0))
         rhs = self.make_rhs(S, cfg["rhs"], f, p, cid, cfg)
         if rhs is None:
             self.stats["lib_rhs_skipped"] += 1
@@ -577,7 +598,7 @@ class Checker:
     def case_iter(self, S, cid, solver, cfg):
         api, st = self.api, self.stats
         strong, tol = cfg["strong"], cfg["tol"]
-        f, c, p = self.draw(S, cid, cfg["fc"])
+        f, c, p = self.draw(S, cid, cfg["fc"], cfg.get("fs", 1.0))
         rhs = self.make_rhs(S, cfg["rhs"], f, p, cid, cfg)
         if rhs is None:
             st["lib_rhs_skipped"] += 1
